@@ -24,7 +24,7 @@ ANCHORS = [
     "stereomolgraph.stereodescriptors:_StereoMixin.invert",
 ]
 REQUIRED_ANCHORS = ANCHORS
-REQUIRED = ["enantiomers", "meso_cases", "chiral_cases", "axis_only_cases", "with_bond_changes", "with_atom_changes", "chirality_decided", "with_unspecified", "derived_states", "dangling_descriptor_states"]
+REQUIRED = ["enantiomers", "meso_cases", "chiral_cases", "axis_only_cases", "with_bond_changes", "with_atom_changes", "chirality_decided", "with_unspecified", "derived_states", "dangling_descriptor_states", "derived_state_chirality_decided"]
 CASE_TIMEOUT = 60
 
 
@@ -206,6 +206,11 @@ def _derived_states(ctx, case, g, cls):
             x, y = rng.choice(pool)
             h.remove_bond(x, y)
             states.append(("bond-removed", h))
+    if cls == "StereoMolGraph" and rng.random() < 0.15 and len(g.atoms) <= 8:
+        h = g.copy()
+        for b in list(h.bonds):
+            h.remove_bond(*tuple(b))
+        states.append(("all-bonds-removed", h))
     for tag, h in states:
         src = snap(h)
         dangling = [b for b in src["bstereo"] if b not in src["bonds"]]
@@ -226,6 +231,24 @@ def _derived_states(ctx, case, g, cls):
             ctx.violate(f"C06/not-the-mirror-image/{cls}/{tag}{'/dangling-descriptor' if dangling else ''}", f"enantiomer() of the {tag} state differs from the mirror image: {'; '.join(diff[:2])}", case)
         if sem.pg_diff(src, snap(h), mode="exact"):
             ctx.violate(f"C06/original-modified/{cls}/{tag}", "enantiomer() changed the original", case)
+        # equal to its enantiomer exactly when a bijection onto the mirror image exists - also for these states
+        alld = list(src["astereo"].values()) + list(src["bstereo"].values()) + [d for v in list(src["achange"].values()) + list(src["bchange"].values()) for d in v.values()]
+        # (only for molecule states: a stereo REACTION graph whose bond descriptor has outlived its bond cannot be
+        # compared at all on the pinned code - reactant() re-validates the descriptor and raises ValueError - which is a
+        # statement about stereo-invalid reaction graphs, not about enantiomers)
+        if not diff and type(h).__name__ == "StereoMolGraph" and len(src["atoms"]) <= 10 and all(d[2] is not None for d in alld):
+            try:
+                truth = sem.isomorphic(src, want, budget=500_000)
+            except TimeoutError:
+                continue
+            ctx.count("derived_state_chirality_decided")
+            try:
+                r1, r2 = (h == e), (e == h)
+            except Exception as ex:  # noqa: BLE001
+                ctx.violate(f"C06/eq-raises:{type(ex).__name__}/{cls}/{tag}", f"state == its enantiomer raised {ex!r}", case)
+                continue
+            if r1 is not truth or r2 is not truth:
+                ctx.violate(f"C06/chirality-wrong/{cls}/{'equal-but-chiral' if not truth else 'unequal-but-achiral'}/{tag}", f"{tag} state == its enantiomer is {r1}/{r2}, reference search for an isomorphism onto the mirror image says {truth}", case)
 
 
 def _ne(S):
